@@ -7,6 +7,8 @@ mod common;
 mod stylefmt;
 mod treegen;
 mod c02;
+mod c08;
+mod c03;
 mod c14;
 mod c13;
 mod c18;
@@ -23,6 +25,8 @@ fn main() {
     let prop = args[1].clone();
     let mut out_dir = String::from("/verif/.cache/run/tmp");
     let mut cfg = Cfg { tier: "quick".into(), seed: 1, only_case: None, cases: None };
+    let mut from = 0u64;
+    let mut to = 0u64;
     let mut i = 2;
     while i < args.len() {
         match args[i].as_str() {
@@ -42,6 +46,14 @@ fn main() {
                 cfg.only_case = Some(args[i + 1].parse().unwrap());
                 i += 2
             }
+            "--from" => {
+                from = args[i + 1].parse().unwrap();
+                i += 2
+            }
+            "--to" => {
+                to = args[i + 1].parse().unwrap();
+                i += 2
+            }
             "--cases" => {
                 cfg.cases = Some(args[i + 1].parse().unwrap());
                 i += 2
@@ -54,9 +66,15 @@ fn main() {
     }
     // panics inside the implementation are caught per case; keep the default hook quiet
     std::panic::set_hook(Box::new(|_| {}));
+    if prop == "C03worker" {
+        c03::worker(cfg.seed, from, to);
+        return;
+    }
     let mut out = Out::new(&out_dir);
     let extra = match prop.as_str() {
         "C02" => c02::run(&cfg, &mut out),
+        "C08" => c08::run(&cfg, &mut out),
+        "C03" => c03::run(&cfg, &mut out),
         "C14" => c14::run(&cfg, &mut out),
         "C13" => c13::run(&cfg, &mut out),
         "C18" => c18::run(&cfg, &mut out),
